@@ -114,13 +114,15 @@ def cocCorner (ctv : Array Nat) (st : HEState) (c : Nat) : HEState :=
   let tip := vget ctv c
   let src := vget ctv (nextC c)
   let snk := vget ctv (prevC c)
-  match takeMatch ctv src tip (st.buckets.getD snk []) with
-  | some (e, rest) =>
-    { buckets := st.buckets.setIfInBounds snk rest
-      opp := (st.opp.setIfInBounds c (some e)).setIfInBounds e (some c) }
-  | none =>
-    { buckets := st.buckets.modify src (· ++ [(snk, c)])
-      opp := st.opp }
+  match st with
+  | { buckets, opp } =>
+    match takeMatch ctv src tip (buckets.getD snk []) with
+    | some (e, rest) =>
+      { buckets := buckets.setIfInBounds snk rest
+        opp := (opp.setIfInBounds c (some e)).setIfInBounds e (some c) }
+    | none =>
+      { buckets := buckets.modify src (· ++ [(snk, c)])
+        opp := opp }
 
 /-- three consecutive iterations of the main loop (one face); a degenerate face is skipped
     (`c += 2; continue`) and counted -/
@@ -230,16 +232,23 @@ structure VCState where
 
 /-- body of the swing-left loop: mark, `vertex_corners_[v] = act_c`, relabel -/
 def markL (v : Nat) (nm : Bool) (st : VCState) (act : Nat) : VCState :=
-  { st with
-    visitedC := st.visitedC.setIfInBounds act true
-    vc := st.vc.setIfInBounds v (some act)
-    ctv := if nm then st.ctv.setIfInBounds act v else st.ctv }
+  match st with
+  | { ctv, vc, parents, visitedV, visitedC } =>
+    { ctv := if nm then ctv.setIfInBounds act v else ctv
+      vc := vc.setIfInBounds v (some act)
+      parents
+      visitedV
+      visitedC := visitedC.setIfInBounds act true }
 
 /-- body of the swing-right loop: mark, relabel -/
 def markR (v : Nat) (nm : Bool) (st : VCState) (act : Nat) : VCState :=
-  { st with
-    visitedC := st.visitedC.setIfInBounds act true
-    ctv := if nm then st.ctv.setIfInBounds act v else st.ctv }
+  match st with
+  | { ctv, vc, parents, visitedV, visitedC } =>
+    { ctv := if nm then ctv.setIfInBounds act v else ctv
+      vc
+      parents
+      visitedV
+      visitedC := visitedC.setIfInBounds act true }
 
 /-- `while (act_c != kInvalidCornerIndex) { …; act_c = SwingLeft(act_c); if (act_c == c) break; }`
     The flag is `act_c == kInvalidCornerIndex` after the loop. -/
